@@ -51,9 +51,9 @@ type cs struct {
 	seenSubs int
 	lines    []string
 	// roots that already held a quorum of correct stored shares when a well-formed message made ProcessX return an error
-	starved  map[int]bool
-	reported map[string]bool
-	regObj   ssz.HashRoot
+	starved   map[int]bool
+	reported  map[string]bool
+	regObj    ssz.HashRoot
 	lastDelta int // slot offset of the duty started last on this runner
 }
 
@@ -559,6 +559,9 @@ func (s *state) do(line string) {
 		s.cur.lines = append(s.cur.lines, op)
 		s.run.Emit(op, s.cur.begin(d, kv["dec"] != "0"))
 		s.run.Tag("op/next-duty")
+	case "exitprobe":
+		exitBroadcastFailureProbe(s.run)
+		s.run.Emit("exitprobe", "done")
 	case "decide":
 		if s.cur == nil {
 			s.run.Emit(line, "bad-op")
@@ -596,7 +599,7 @@ func (s *state) do(line string) {
 		for _, t := range toks {
 			fl += string(t.fl)
 		}
-		s.run.Seen(fmt.Sprintf("%s/n%d/%s/%s/k%d", c.kind.Name, c.n, cls, classOf(fl), len(toks)))
+		s.run.Seen(fmt.Sprintf("%s/n%d/%s/%s/k%d/later%v", c.kind.Name, c.n, cls, classOf(fl), len(toks), c.lastDelta > 0))
 	default:
 		s.run.Emit(line, "bad-op")
 	}
@@ -621,6 +624,51 @@ func classOf(fl string) string {
 		return "mixed"
 	}
 	return "bad:" + fl[:1]
+}
+
+// exitBroadcastFailureProbe (implementation-side oracle only, nothing for the model): the voluntary-exit runner caches the
+// exit message in `r.voluntaryExit` at the very end of executeDuty, after Network.Broadcast. When the operator's OWN
+// broadcast fails, the duty state is nevertheless set up, the peers' shares reach a quorum, and ProcessPreConsensus submits
+// whatever is cached: nothing on a first duty (nil message, then a nil dereference), the previous duty's message otherwise.
+func exitBroadcastFailureProbe(run *hx.Run) {
+	kind, _ := rkit.KindByName("exit")
+	ks := rkit.KeySet(4)
+	bn, net, km := rkit.NewRecBeacon(), &rkit.RecNet{}, rkit.NewRecKM()
+	env := rkit.NewEnvWith(kind, ks, 1, bn, net, km)
+	const sig = "C05/voluntary-exit:cached-exit-message-not-set-when-own-broadcast-fails"
+	replay := []string{"exitprobe"}
+	duty := func(delta uint64, fail bool) {
+		net.Fail = fail
+		d := kind.Duty(delta)
+		_ = env.Runner.StartNewDuty(env.Log, d)
+		roots := kind.PreObjects(env.Share, d)
+		for id := 2; id <= 4; id++ {
+			m := rkit.PartialSigMsg(ks, spectypes.VoluntaryExitPartialSig, d.Slot, spectypes.OperatorID(id), roots,
+				[][]byte{rkit.ShareSig(ks, spectypes.OperatorID(id), roots[0])})
+			func() {
+				defer func() {
+					if p := recover(); p != nil {
+						run.Violate(sig, fmt.Sprintf("exit n=4: own broadcast of the duty at slot %d failed; the peers' quorum made ProcessPreConsensus submit a SignedVoluntaryExit with a nil message and then panic (%v)", d.Slot, p), replay...)
+					}
+				}()
+				_ = env.Runner.ProcessPreConsensus(env.Log, m)
+			}()
+		}
+		for _, s := range bn.Subs {
+			ex, _ := s.Obj.(*phase0.VoluntaryExit)
+			if ex == nil {
+				run.Violate(sig, fmt.Sprintf("exit n=4: own broadcast of the duty at slot %d failed; SubmitVoluntaryExit was called with a nil message", d.Slot), replay...)
+				continue
+			}
+			if !rkit.VerifyUnderValidator(ks, rkit.SigningRoot(ex, s.Domain), s.Sig[:]) {
+				run.Violate(sig, fmt.Sprintf("exit n=4: own broadcast of the duty at slot %d failed; the exit message of an EARLIER duty (epoch %d) was submitted with the signature over this duty's exit: it does not verify under the validator public key", d.Slot, ex.Epoch), replay...)
+			}
+		}
+		bn.Subs = nil
+	}
+	duty(1, false)
+	duty(38, true)
+	run.Tag("op/exitprobe")
 }
 
 // ---------------------------------------------------------------- generators
@@ -651,11 +699,32 @@ func genCase(s *state, r *hx.Rng) {
 	n := r.Pick(4, 4, 7, 7, 10, 13)
 	f := (n - 1) / 3
 	k := rootsOf(kind)
-	dec := true
-	if kind != "reg" && kind != "exit" && r.Chance(12) {
-		dec = false
+	// one to three consecutive duties on the SAME runner object (later ones in the same or in another epoch)
+	duties := 1
+	if r.Chance(35) {
+		duties = 2 + r.Intn(2)
 	}
-	s.do(fmt.Sprintf("reset kind=%s n=%d dec=%d", kind, n, map[bool]int{true: 1, false: 0}[dec]))
+	delta := 0
+	for di := 0; di < duties; di++ {
+		dec := true
+		if kind != "reg" && kind != "exit" && r.Chance(12) {
+			dec = false
+		}
+		if di == 0 {
+			s.do(fmt.Sprintf("reset kind=%s n=%d dec=%d", kind, n, map[bool]int{true: 1, false: 0}[dec]))
+		} else {
+			if r.Chance(6) {
+				s.do(fmt.Sprintf("next d=%d dec=1", delta)) // a duty whose slot already passed: refused
+			}
+			delta += r.Pick(1, 38, 38, 70)
+			s.do(fmt.Sprintf("next d=%d dec=%d", delta, map[bool]int{true: 1, false: 0}[dec]))
+		}
+		genDuty(s, r, kind, n, f, k, dec)
+	}
+}
+
+// genDuty: the traffic of one duty: arrival order and faulty senders drawn from the PRNG.
+func genDuty(s *state, r *hx.Rng, kind string, n, f, k int, dec bool) {
 	nb := r.Intn(f + 1)
 	if r.Chance(8) {
 		nb = r.Intn(n + 1) // beyond the fault bound: safety must still hold, the model must still agree
@@ -840,6 +909,7 @@ func main() {
 	for n := 0; n <= 40; n++ {
 		s.do(fmt.Sprintf("quorum n=%d", n))
 	}
+	s.do("exitprobe")
 	sys := 720
 	if run.Tier == "quick" {
 		sys = 240
